@@ -26,7 +26,7 @@ func parseListFile(path string) (name string, words [][]int, ok bool) {
 	fs := token.NewFileSet()
 	af, err := parser.ParseFile(fs, path, nil, 0)
 	if err != nil {
-		return "", nil, false
+		return "", [][]int{}, false
 	}
 	nvars := 0
 	ok = true
